@@ -74,7 +74,7 @@ class FakeProxy:
 
 class FakeImage:
     def __init__(self, raw, affine=None, slope=None, inter=None):
-        self.dataobj = FakeProxy(raw, slope, inter)
+        self.dataobj = raw if type(raw).__name__ == "SStructArray" else FakeProxy(raw, slope, inter)
         self.affine = real_np.diag([1.0, 1.0, 1.0, 1.0]) if affine is None else affine
         shape = raw.shape
         self.header = types.SimpleNamespace(get_data_shape=lambda: shape, get_data_dtype=lambda: raw.dtype)
@@ -98,7 +98,7 @@ class World:
         self.images = {}
         import nibabel as real_nib
         nib = types.SimpleNamespace(load=lambda fn: self.images[str(fn)], affines=real_nib.affines,
-                                    orientations=real_nib.orientations, Nifti1Image=None)
+                                    orientations=real_nib.orientations, Nifti1Image=lambda data, affine, *a, **k: FakeImage(data, affine))
         self.nibabel = nib
         load.patch("accessor")
         load.patch("chunk_encoding", np=npx)
